@@ -287,6 +287,13 @@ def gen_conc_segments(nseg, seed, nthreads=(2, 4), oplen=(3, 14), prefix='conc')
             if t + 1 < NMOCK:
                 lines.append('pre mock %d' % (t + 1))
             lines.append('pre obj %d' % (t + 1))
+        # a requirement created by the main thread on thread 1's object and released by thread 0:
+        # release of a monitor and destruction of its object are issued from different threads
+        cross = T >= 2 and rnd.random() < 0.6
+        if cross:
+            nqx = rnd.choice([0, 0, 1])
+            lines.append('pre watch 4 2 %d %d 0' % (nqx, rnd.choice([1, 2]) if nqx else 0))
+        focused = cross and rnd.random() < 0.5      # short programs that start with the two racing operations
         for t in range(T):
             own_slots = [2 * t + 1, 2 * t + 2]
             own_mock = t + 1 if t + 1 < NMOCK else 0
@@ -297,7 +304,17 @@ def gen_conc_segments(nseg, seed, nthreads=(2, 4), oplen=(3, 14), prefix='conc')
             k = t + 1
             L = rnd.randint(*oplen)
             cnt = 0
+            cross_pending = cross and t == 0
+            if focused:
+                L = rnd.randint(0, 3)
+                if t == 0:
+                    lines.append('thr 0 unwatch 4'); cross_pending = False
+                elif t == 1:
+                    lines.append('thr 1 dobj 2'); obj_alive = False
             while cnt < L:
+                if cross_pending and rnd.random() < 0.15:
+                    lines.append('thr 0 unwatch 4'); cross_pending = False; cnt += 1
+                    continue
                 kind = rnd.choices(['expect', 'call', 'release', 'query', 'iscompleted', 'watch', 'dobj', 'unwatch', 'mquery', 'dmock'],
                                    [6, 12, 3, 3, 3, 1.5, 1.2, 0.8, 1, 0.3])[0]
                 if kind == 'expect':
